@@ -24,7 +24,7 @@ from checks import common
 from checks.common import Cases
 
 LEVEL = "proof"
-IMPORTS = "Occ Degree Linear LinearProofs"
+IMPORTS = "Occ Degree Linear LinearProofs Vars"
 DEFS = """
 Definition aligned_if_fast (V : list string) (e : expr) : bool :=
   match fast_path V e with Some _ => aligned V e | None => true end.
@@ -39,6 +39,7 @@ Definition lp_eqb (d : lpdata) (c : list Q) (c0 : Q) (mx : bool) (aub : list (li
 CHECKER = ("fun k => match k with (V, obj, mx, cs, (c, c0, aub, bub, aeq, beq), per) => "
            "let es := obj :: map fst cs in "
            "forallb wf es && forallb nodiv0 es && forallb (aligned_if_fast V) es && is_linear_problem obj cs "
+           "&& list_eqb String.eqb (problem_variables (Some obj) (map fst cs)) V "   # the columns are exactly the model's variables (C16)
            "&& lp_eqb (extract_lp V obj mx cs) c c0 mx aub bub aeq beq V "
            "&& list_eqb Qeq_bool (all_coefs V obj) per end")
 CASE_TYPE = ("list string * expr * bool * list (expr * sense) * "
@@ -102,7 +103,7 @@ def vector_only(g: gen.Gen, r):
         return np.array([b * (k + 1) * (-1 if k == 1 else 1) for k in range(m)])
     def form():
         w = r.choice(views())
-        k = r.randrange(9)
+        k = r.randrange(12)
         i = r.randrange(n)
         if k == 0:
             return arr(w.size) @ w
@@ -120,6 +121,12 @@ def vector_only(g: gen.Gen, r):
             return r.choice([2, 3]) * w.sum() - arr(w.size) @ w
         if k == 7:
             return arr(w.size) @ w - r.choice([1, 4])
+        if k == 8:
+            return r.choice([10, -2.5, 3]) - arr(w.size) @ w           # constant MINUS a whole-vector reduction
+        if k == 9:
+            return r.choice([7, 1.5]) - w.sum()
+        if k == 10:
+            return r.choice([4, -1]) + arr(w.size) @ w
         return (arr(w.size) @ w) * 2 + x[i]
     obj = form()
     cons = []
@@ -136,7 +143,13 @@ def vector_only(g: gen.Gen, r):
 
 def point_identity_witness(P, data, rng):
     """c.x + c0 = obj(x) and row identities at rational points, with the implementation's evaluate()."""
-    names = data.variables
+    names = list(data.variables)
+    mentioned = set(v.name for v in P.objective.get_variables())
+    for con in P.constraints:
+        mentioned |= set(v.name for v in con.get_variables())
+    if set(names) != mentioned:
+        return {"what": "columns", "lp_columns": names, "variables_the_model_mentions": sorted(mentioned),
+                "missing": sorted(mentioned - set(names)), "extra": sorted(set(names) - mentioned)}
     n_eq = sum(1 for con in P.constraints if con.sense == "==")
     n_ub = len(P.constraints) - n_eq
     got_ub = 0 if data.A_ub is None else len(data.A_ub)
@@ -178,6 +191,8 @@ def run(rep: vk.Report):
     errors = {}
     forms = {}
     streams = {}
+    hist = {}
+    bounds_bad = 0
     for i in range(n):
         r = random.Random(rng.random())
         g = gen.Gen(r, profile="poly")
@@ -196,7 +211,19 @@ def run(rep: vk.Report):
         P = Problem()
         mx = r.random() < 0.5
         (P.maximize if mx else P.minimize)(obj)
+        for v in obj.get_variables():
+            if r.random() < 0.5:
+                v.lb = r.choice([None, 0, 0.0, -0.0, -1.5, 2])
+                v.ub = r.choice([None, 0, 0.0, -0.0, 3.5, 10])
+                if v.lb is not None and v.ub is not None and v.lb > v.ub:
+                    v.lb = None
+        if r.random() < 0.5:
+            _ = P.n_variables, P.variables           # the variable list exists BEFORE the constraints arrive
+            hist["variables-read-before-constraints"] = hist.get("variables-read-before-constraints", 0) + 1
         if cons:
+            if r.random() < 0.5 and len(cons) >= 2:
+                # a list whose FIRST element brings variables the objective does not mention, the last one only known ones
+                cons = sorted(cons, key=lambda c: -len(c.get_variables() - obj.get_variables()))
             P.subject_to(cons)
         try:
             d = LinearProgramExtractor().extract(P)
@@ -218,6 +245,14 @@ def run(rep: vk.Report):
         ql = lambda arr: ser.lst(ser.q(float(v)) for v in arr)
         qm = lambda M: ser.lst(ql(row) for row in M) if M is not None else "[]"
         qv = lambda v: ql(v) if v is not None else "[]"
+        declared = [(None if v.lb is None else float(v.lb), None if v.ub is None else float(v.ub)) for v in P.variables]
+        got_b = [(None if b[0] is None or not np.isfinite(b[0]) else float(b[0]), None if b[1] is None or not np.isfinite(b[1]) else float(b[1]))
+                 for b in (d.bounds or [])]
+        if got_b != declared or [v.name for v in P.variables] != list(d.variables):
+            bounds_bad += 1
+            rep.violation({"kind": "correspondence", "obligation": "LPData.bounds / variables are the declared bounds of the problem's variables, in order",
+                           "witness": {"variables": [v.name for v in P.variables], "lp_variables": list(d.variables), "declared": declared,
+                                       "lp_bounds": got_b, "objective": repr(obj)[:200]}}, concrete=True)
         if (d.sense == "max") != mx:
             rep.violation({"kind": "sense", "obligation": "LPData.sense is the user's orientation", "got": d.sense, "maximize": mx}, concrete=True)
         lpt = f"({ql(d.c)}, {ser.q(float(getattr(d, 'c0', 0.0)))}, {qm(d.A_ub)}, {qv(d.b_ub)}, {qm(d.A_eq)}, {qv(d.b_eq)})"
@@ -243,6 +278,8 @@ def run(rep: vk.Report):
                    "compared exactly with the model; distinct = distinct serialised case, non-trivial = >= 2 node kinds")
     cov["samples"] = [c[:500] for c in cases.terms[:3]]
     cov["streams"] = streams
+    cov["histories"] = hist
+    cov["bounds_disagreements"] = bounds_bad
     cov["constraint_sense_histogram"] = forms
     cov["node_kind_histogram"] = dict(sorted(cases.hist.items()))
     cov["unsupported_by_serialiser"] = unsupported
